@@ -38,6 +38,17 @@ PROGRAM_THEOREMS = {
 }
 
 
+_NF = ["Bb.Nf.nf_sound", "Bb.Nf.bodiesEquiv_sound"]
+_TVG = ["Bb.TV.getter_validated", "Bb.TV.getter_validated_plain"]
+_TVS = ["Bb.TV.setter_validated"]
+_TVO = ["Bb.TV.getter_validated_oob", "Bb.TV.setter_validated_oob"]
+TV_THEOREMS = {
+    "C01": _NF + _TVG, "C02": _NF + _TVS, "C03": _NF + _TVG + _TVS + _TVO, "C04": _NF + _TVG + _TVS, "C05": _NF + _TVG + _TVS,
+    "C06": _NF, "C08": _NF + _TVG + _TVS, "C11": _NF + _TVS, "C12": _NF + _TVS, "C13": _NF + _TVS,
+    "C16": _NF + _TVO + ["Bb.TV.validated_profile_independent"],
+}
+
+
 def lean_obligations(prop, thorough=False):
     """returns dict(obligations, discharged, theorems[], problems[], checker_cmd)"""
     mod = "BitbybitModel.Props.%s" % prop
@@ -93,31 +104,39 @@ def lean_obligations(prop, thorough=False):
         out["theorems"].append({"name": name, "axioms": axs})
     if out["obligations"] == 0:
         out["problems"].append("no theorems found in namespace %s" % ns)
-    # declaration-level corollaries (Props/Program.lean) that this property also relies on
-    extra = PROGRAM_THEOREMS.get(prop, [])
-    if extra:
-        pm = "BitbybitModel.Props.Program"
-        b = subprocess.run(["lake", "build", pm], cwd=LEAN_DIR, stdout=subprocess.PIPE, stderr=subprocess.STDOUT, text=True)
-        if b.returncode != 0:
-            out["problems"].append("lake build %s failed: %s" % (pm, b.stdout[-1500:]))
-            return out
-        a2 = subprocess.run(["lake", "env", "lean", "--run", "Audit.lean", pm], cwd=LEAN_DIR, stdout=subprocess.PIPE, stderr=subprocess.STDOUT, text=True)
+    # declaration-level corollaries (Props/Program.lean) and the translation-validation theorems (Symbolic/NfSound.lean,
+    # Props/TV.lean: what an `equal` answer of the normaliser means) that this property also relies on
+    def audit_extra(mods, names):
+        for pm in mods:
+            b = subprocess.run(["lake", "build", pm], cwd=LEAN_DIR, stdout=subprocess.PIPE, stderr=subprocess.STDOUT, text=True)
+            if b.returncode != 0:
+                out["problems"].append("lake build %s failed: %s" % (pm, b.stdout[-1500:]))
+                return False
+        a2 = subprocess.run(["lake", "env", "lean", "--run", "Audit.lean"] + mods, cwd=LEAN_DIR, stdout=subprocess.PIPE, stderr=subprocess.STDOUT, text=True)
         seen = {}
         for line in a2.stdout.splitlines():
             m = re.match(r"theorem (\S+) axioms=\[(.*)\]", line)
             if m:
                 seen[m.group(1)] = [x.strip() for x in m.group(2).split(",") if x.strip()]
-        for short in extra:
-            name = "Bb.Prog." + short
+        for name in names:
             out["obligations"] += 1
             if name not in seen:
-                out["problems"].append("theorem %s missing from %s" % (name, pm))
+                out["problems"].append("theorem %s missing from %s" % (name, " ".join(mods)))
                 continue
             if set(seen[name]) <= ALLOWED_AXIOMS:
                 out["discharged"] += 1
             else:
                 out["problems"].append("theorem %s depends on %s" % (name, seen[name]))
             out["theorems"].append({"name": name, "axioms": seen[name]})
+        return True
+    extra = PROGRAM_THEOREMS.get(prop, [])
+    if extra:
+        if not audit_extra(["BitbybitModel.Props.Program"], ["Bb.Prog." + x for x in extra]):
+            return out
+    tv = TV_THEOREMS.get(prop, [])
+    if tv:
+        if not audit_extra(["BitbybitModel.Props.TV", "BitbybitModel.Symbolic.NfSound"], tv):
+            return out
     if thorough:
         lc = subprocess.run(["lake", "env", "leanchecker", mod], cwd=LEAN_DIR, stdout=subprocess.PIPE, stderr=subprocess.STDOUT, text=True)
         out["leanchecker_rc"] = lc.returncode
@@ -307,12 +326,18 @@ def evaluate(prop, res):
                 if prop in ps:
                     add("correspondence", "driver could not interpret operation", {"line": opline, "profile": prof, "declaration": bname})
                 continue
-            m = re.match(r"mismatch (M|S) (.*?) :: (op .*)$", line)
+            m = re.match(r"mismatch (M|S|A) (.*?) :: (op .*)$", line)
             if not m:
                 continue
             which, expected, opline = m.group(1), m.group(2), m.group(3)
             name, kind, ps = op_props(table, opline)
             if prop not in ps:
+                continue
+            if which == "A":
+                # the emitted body, read back into the model's expression language and evaluated, does not give the real
+                # result: the translation of that body (on which its validation by normal form rests) is not faithful
+                add("correspondence", "the emitted body as translated for its validation evaluates differently from the real code",
+                    {"op": opline, "translated_body_gives": expected, "profile": prof, "declaration": name})
                 continue
             # C16 only cares about panics / profile differences; value mismatches belong to the accessor properties
             if prop == "C16" and not ("panic" in expected or opline.endswith("= panic")):
@@ -384,12 +409,27 @@ def evaluate(prop, res):
             if kind == "write":
                 ps |= {"C12"} | ({"C13"} if "builder" in d["classes"] else set())
         if prop in ps:
-            add("correspondence", "the emitted body differs from the body the model generates (the theorems are about the latter)",
-                {"declaration": name, "item": item, "real": rsx, "model": msx})
+            add("correspondence", "the emitted body differs from the body the model generates and has no normal form in common with it "
+                "(the theorems are about the latter)",
+                {"declaration": name, "item": item, "real": rsx, "model": msx, "as_operation": "get %s" % item})
     if ast:
         cov["ast_equal_bodies"] = ast.get("equal", 0)
         cov["ast_differing_bodies"] = ast.get("differ_count", 0)
         cov["ast_untranslatable_bodies"] = ast.get("untranslatable_count", 0)
+        nfr = ast.get("nf", {})
+        # bodies that differ syntactically from the model's but were proved equivalent to it for all inputs
+        # (Nf.bodiesEquiv = true; theorem Bb.Nf.bodiesEquiv_sound / Bb.TV.*_validated)
+        cov["nf_validated_bodies"] = nfr.get("validated_count", 0)
+        cov["nf_compared_bodies"] = nfr.get("asked", 0)
+        cov["nf_equal_bodies"] = nfr.get("equal", 0)
+        cov["nf_no_normal_form"] = len(nfr.get("unknown", []))
+        for (name, item, verdict) in [tuple(x) for x in nfr.get("ast_equal_but_not_nf_equal", [])][:20]:
+            add("correspondence", "a body that is syntactically the model's is not accepted by the normaliser (translator or normaliser defect)",
+                {"declaration": name, "item": item, "verdict": verdict})
+        for prof in res.get("stats", {}):
+            mA = re.search(r"opsA=(\d+) misA=(\d+)", res["stats"][prof])
+            if mA:
+                cov["translated_body_ops_" + prof] = int(mA.group(1))
 
     # ---- structural comparison of Debug impl / builder / enum conversions with the model --------------------------------
     sc = res.get("struct_cmp", {})
